@@ -765,6 +765,10 @@ func (g *Gen) strangerAct() {
 		g.boundaryAct(st)
 		return
 	}
+	if g.mrng.Float64() < 0.12 {
+		g.ghostAct(st)
+		return
+	}
 	switch g.pick(14) {
 	case 0:
 		if len(binds) > 0 {
@@ -852,6 +856,109 @@ func (g *Gen) strangerAct() {
 	case 13:
 		// paying into the module accounts from outside
 		g.submit(g.tx(st, MsgOp{T: "send", To: pickStr(g, []string{"m:" + types.RequestAccName, "m:" + types.DepositAccName}), Amount: int64(1 + g.pick(100))}), 0)
+	}
+}
+
+// ghostAct: well-formed messages aimed at things that do not exist, or carrying terms the state (not the stateless
+// validation) must refuse — the error branches of the handlers. All of them must fail and change nothing.
+func (g *Gen) ghostAct(st int) {
+	r := g.mrng
+	svcs := g.definedSvcs()
+	binds := g.allBindings()
+	g.x.stats.inc("ghost_msg")
+	signer := st
+	if len(g.owners) > 0 && r.Float64() < 0.5 {
+		signer = g.owners[r.Intn(len(g.owners))] // a legitimate owner of other things
+	}
+	// a (service, provider) pair without a binding
+	ghostSvc, ghostProv := "nosuchservice", acctRef(st)
+	if len(svcs) > 0 {
+		ghostSvc = svcs[r.Intn(len(svcs))]
+		for _, pi := range g.providers {
+			if _, ok := g.x.cur.Bindings[bkey(ghostSvc, acctAddr(pi))]; !ok {
+				ghostProv = acctRef(pi)
+				break
+			}
+		}
+		if _, ok := g.x.cur.Bindings[bkey(ghostSvc, resolveAddr(ghostProv))]; ok {
+			ghostSvc = "nosuchservice"
+		}
+	}
+	switch r.Intn(12) {
+	case 0:
+		g.submit(g.tx(signer, MsgOp{T: "update", Svc: ghostSvc, Prov: ghostProv, Deposit: "7stake", Pricing: `{"price":"1stake"}`, QoS: 1, Options: "{}"}), 0)
+	case 1:
+		g.submit(g.tx(signer, MsgOp{T: "disable", Svc: ghostSvc, Prov: ghostProv}), 0)
+	case 2:
+		g.submit(g.tx(signer, MsgOp{T: "enable", Svc: ghostSvc, Prov: ghostProv, Deposit: "7stake"}), 0)
+	case 3:
+		g.submit(g.tx(signer, MsgOp{T: "refund", Svc: ghostSvc, Prov: ghostProv}), 0)
+	case 4:
+		// earnings of a provider nobody ever bound
+		b := make([]byte, 20)
+		for i := range b {
+			b[i] = byte(r.Intn(256))
+		}
+		g.submit(g.tx(signer, MsgOp{T: "withdraw", Prov: rawRef(b)}), 0)
+	case 5:
+		// the owner commits to a response time beyond the maximum timeout
+		if len(binds) > 0 {
+			b := binds[r.Intn(len(binds))]
+			if oi := g.acctIndex(b.Owner); oi >= 0 {
+				g.submit(g.tx(oi, MsgOp{T: "update", Svc: b.ServiceName, Prov: refOfAddr(g, b.Provider), QoS: uint64(g.x.cur.Params.MaxRequestTimeout) + 1 + uint64(r.Intn(3)), Options: "{}"}), 0)
+			}
+		}
+	case 6:
+		// a context update whose fee cap is not in the base denomination
+		for _, id := range g.x.cur.CtxIDs() {
+			c := g.x.cur.Ctx[id]
+			if ci := g.acctIndex(c.Consumer); ci >= 0 && c.ModuleName == "" {
+				g.submit(g.tx(ci, MsgOp{T: "updctx", Ctx: g.ctxRefFor(id), FeeCap: []string{"5atom", "5ugold", "5stake,5ugold"}[r.Intn(3)]}), 0)
+				break
+			}
+		}
+	case 7:
+		// a call whose fee cap is not in the base denomination
+		if len(binds) > 0 {
+			b := binds[r.Intn(len(binds))]
+			g.submit(g.tx(g.consumers[r.Intn(len(g.consumers))], MsgOp{T: "call", Svc: b.ServiceName, Providers: []string{refOfAddr(g, b.Provider)}, Input: goodInput, FeeCap: []string{"5atom", "5ugold"}[r.Intn(2)], Timeout: 1}), 0)
+		}
+	case 8:
+		// the foreign module hands over an input that does not fit the service's schema / is not JSON
+		if g.useModule && len(binds) > 0 {
+			b := binds[r.Intn(len(binds))]
+			g.submit(Op{K: "mod", Mod: &ModOp{Label: g.label("m"), T: "create", Svc: b.ServiceName, Providers: []string{refOfAddr(g, b.Provider)}, Consumer: acctRef(g.consumers[0]),
+				Input: []string{"not json", `{"header":{}}`, `{"body":{}}`}[r.Intn(3)], FeeCap: "2000stake", Timeout: 1, Threshold: 1}}, 0)
+		}
+	case 9:
+		// binding a service nobody defined
+		pricing := `{"price":"1stake"}`
+		g.submit(g.tx(signer, MsgOp{T: "bind", Svc: "ghost-svc", Prov: acctRef(signer), Deposit: fmt.Sprintf("%dstake", g.curMinDeposit(pricing)), Pricing: pricing, QoS: 1, Options: "{}"}), 0)
+	case 10:
+		// calling a service nobody defined, or providers none of which is bound
+		g.submit(g.tx(g.consumers[r.Intn(len(g.consumers))], MsgOp{T: "call", Svc: ghostSvc, Providers: []string{ghostProv}, Input: goodInput, FeeCap: "50stake", Timeout: 1}), 0)
+	case 11:
+		// the foreign module updates one of its contexts with terms the state must refuse
+		if g.useModule {
+			for _, id := range g.x.cur.CtxIDs() {
+				c := g.x.cur.Ctx[id]
+				if c.ModuleName != "" {
+					mo := &ModOp{Label: g.label("m"), T: "update", Ctx: g.ctxRefFor(id), Consumer: acctRef(maxInt(0, g.acctIndex(c.Consumer)))}
+					switch r.Intn(4) {
+					case 0:
+						mo.Timeout = g.x.cur.Params.MaxRequestTimeout + 1
+					case 1:
+						mo.Threshold = uint32(len(c.Providers) + 1)
+					case 2:
+						mo.FeeCap = "5atom"
+					case 3:
+						mo.Providers = []string{ghostProv, ghostProv}
+					}
+					g.submit(Op{K: "mod", Mod: mo}, 0)
+					break
+				}
+			}
+		}
 	}
 }
 
